@@ -104,7 +104,7 @@ class Oracle(reg.Machine):
         return out
 
     def snapshot(self):
-        return {cls.__name__: (sorted((k, id(v)) for k, v in cls._instanceNames.items()),
+        return {reg.label(cls): (sorted((k, id(v)) for k, v in cls._instanceNames.items()),
                                sorted((repr(reg.render(k)), id(v)) for k, v in cls._instanceCanon.items()))
                 for cls in reg.ZOO}
 
@@ -287,9 +287,9 @@ class Oracle(reg.Machine):
         for cls in reg.ZOO:
             for k, v in list(cls._instanceNames.items()) + list(cls._instanceCanon.items()):
                 if type(v) is not cls:
-                    self.bad("C15", f"registry of {cls.__name__} holds a {type(v).__name__} under {k!r}")
+                    self.bad("C15", f"registry of {reg.label(cls)} holds a {reg.label(type(v))} under {k!r}")
         if res is not None and op[0] in ("dom", "cplx", "strand", "macro", "rxn") and type(res) is not reg.ZOO[op[2]]:
-            self.bad("C15", f"{reg.ZOO[op[2]].__name__}(...) returned a {type(res).__name__}")
+            self.bad("C15", f"{reg.label(reg.ZOO[op[2]])}(...) returned a {reg.label(type(res))}")
         if op[0] == "inv" and res is not None and type(res) is not type(self.slots[op[2]] if op[2] != op[1] else res):
             self.bad("C15", "~d is of another class than d")
         # ---- C04 ------------------------------------------------------------
@@ -427,32 +427,44 @@ class Oracle(reg.Machine):
                 pass
 
 
+def run_one(k, h, payload, failures):
+    steps = 0
+    reg.reset()
+    o = Oracle(h["nslots"], payload["checks"], payload.get("deep", False))
+    try:
+        for j, op in enumerate(h["ops"]):
+            o.step(op)
+            steps += 1
+            if o.fail:
+                break
+        else:
+            j = len(h["ops"]) - 1
+            if "C05" in o.checks:
+                o.finale()
+        for check, what in o.fail[:3]:
+            failures.append({"history": k, "step": j, "ops": h["ops"][:j + 1], "nslots": h["nslots"],
+                             "check": check, "what": what})
+            if h.get("zoo"):
+                failures[-1]["zoo"] = h["zoo"]
+    except Exception as e:          # the oracle itself must not hide a history
+        failures.append({"history": k, "step": -1, "ops": h["ops"], "nslots": h["nslots"], "check": "oracle",
+                         "what": f"oracle crashed: {type(e).__name__}: {e}"})
+        if h.get("zoo"):
+            failures[-1]["zoo"] = h["zoo"]
+    o = None
+    reg.reset()
+    return steps
+
+
 def run(payload):
     reg.build_zoo()
     failures, steps = [], 0
     gc.collect()
     gc.disable()
     for k, h in enumerate(payload["histories"]):
-        reg.reset()
-        o = Oracle(h["nslots"], payload["checks"], payload.get("deep", False))
-        try:
-            for j, op in enumerate(h["ops"]):
-                o.step(op)
-                steps += 1
-                if o.fail:
-                    break
-            else:
-                j = len(h["ops"]) - 1
-                if "C05" in o.checks:
-                    o.finale()
-            for check, what in o.fail[:3]:
-                failures.append({"history": k, "step": j, "ops": h["ops"][:j + 1], "nslots": h["nslots"],
-                                 "check": check, "what": what})
-        except Exception as e:          # the oracle itself must not hide a history
-            failures.append({"history": k, "step": -1, "ops": h["ops"], "nslots": h["nslots"], "check": "oracle",
-                             "what": f"oracle crashed: {type(e).__name__}: {e}"})
-        o = None
-        reg.reset()
+        # "zoo": variant of the class zoo (impl/registry.py build_variant: classes that no naming attribute tells apart)
+        with reg.zoo_variant(h.get("zoo", 0)):
+            steps += run_one(k, h, payload, failures)
         if k % 256 == 255:
             gc.collect()
     return {"failures": failures, "steps": steps}
